@@ -170,9 +170,14 @@ def after_stmt(stmt, kinds=("return", "continue", "break", "panic")):
     out = []
     if stmt["k"] == "Local" and stmt.get("else") is not None:
         out.append(("iflet", stmt["pat"], stmt["init"], True))
+    seen = {fact_str(f) for f in out}
     for _kind, _node, conds in exits(stmt, kinds):
         if conds:
-            out += negate(conds)
+            for f in negate(conds):
+                k = fact_str(f)
+                if k not in seen:
+                    seen.add(k)
+                    out.append(f)
         # an unconditional exit: nothing after it is reachable; ignore
     return out
 
